@@ -298,6 +298,7 @@ type h1spec struct {
 	Bodiless   bool   `json:"bodiless,omitempty"`
 	HdrTimeout bool   `json:"hdr_timeout,omitempty"` // ResponseHeaderTimeout configured (1 h unless it is the injection)
 	Auto       bool   `json:"auto,omitempty"`        // auto-read mode: the call returns after the body
+	Queued     bool   `json:"queued,omitempty"`      // MaxConnsPerHost = 1 and the only connection is busy: the request waits in getConn's queue
 }
 
 type obs struct {
@@ -354,6 +355,29 @@ type h1run struct {
 	body     *trackedBody
 	respBody []byte
 	inject   func()
+
+	blockerDone     chan struct{}
+	blockerFinished bool
+}
+
+func (r *h1run) finishBlocker() error {
+	if r.blockerDone == nil || r.blockerFinished {
+		return nil
+	}
+	r.blockerFinished = true
+	if err := r.pc.write([]byte("HTTP/1.1 200 OK\r\nContent-Length: 4\r\n\r\nwarm")); err != nil {
+		return err
+	}
+	return waitCh(r.blockerDone, "the request holding the connection did not finish")
+}
+
+func dialWaiters(c *req.Client) int {
+	s := req.VerifPoolSnapshot(c.GetTransport())
+	n := 0
+	for _, v := range s.DialWaitLive {
+		n += v
+	}
+	return n
 }
 
 type step struct {
@@ -432,7 +456,20 @@ func h1steps(sp h1spec) []step {
 			}})
 		}
 	}
-	if sp.Reuse {
+	if sp.Queued {
+		st = append(st, step{"queued for a connection (MaxConnsPerHost reached)", nil, func(r *h1run) error {
+			if !settle(func() bool { return dialWaiters(r.client) > 0 }) {
+				return errors.New("the request is not in the per-host wait queue")
+			}
+			return nil
+		}})
+		st = append(st, step{"the busy connection became idle and was handed over, request head read", append([]string{"XDialDone true"}, wrote...), func(r *h1run) error {
+			if err := r.finishBlocker(); err != nil {
+				return err
+			}
+			return readReq(r)
+		}})
+	} else if sp.Reuse {
 		st = append(st, step{"request head read on the re-used connection", wrote, readReq})
 		if sp.PeerClose {
 			st = append(st, step{"peer closed the re-used connection", []string{"XPeerClose"}, func(r *h1run) error {
@@ -573,7 +610,28 @@ func runH1(sp h1spec, kind string, pos int, racy bool, quick bool) (o obs) {
 	}
 	url := scheme + "://c08.test/x"
 
-	if sp.Reuse { // warm-up: one complete scripted exchange (no client timeout), the connection goes idle
+	if sp.Queued { // one request holds the only connection the host may have
+		c.GetTransport().SetMaxConnsPerHost(1)
+		dl.setOpen(true)
+		r.blockerDone = make(chan struct{})
+		go func() {
+			defer close(r.blockerDone)
+			c.R().SetContext(context.Background()).Get(url)
+		}()
+		if err := r.acceptConn(); err != nil {
+			o.Harness = "blocker: " + err.Error()
+			return
+		}
+		if err := r.pc.start(peer); err != nil {
+			o.Harness = "blocker: " + err.Error()
+			return
+		}
+		if _, err := r.pc.readHead(); err != nil {
+			o.Harness = "blocker: " + err.Error()
+			return
+		}
+		dl.setOpen(false)
+	} else if sp.Reuse { // warm-up: one complete scripted exchange (no client timeout), the connection goes idle
 		dl.setOpen(true)
 		wdone := make(chan error, 1)
 		go func() {
@@ -759,6 +817,13 @@ func runH1(sp h1spec, kind string, pos int, racy bool, quick bool) (o obs) {
 	}
 
 	// ----- epilogue: let everything that was started finish -----
+	if r.blockerDone != nil && !r.blockerFinished {
+		// the connection the request was queued for becomes idle now: nobody waits for it any more
+		if err := r.finishBlocker(); err != nil {
+			o.Harness = "epilogue: " + err.Error()
+		}
+		o.Post = append(o.Post, "XDialDone true")
+	}
 	dl.openAll()
 	peer.takeoverAll()
 	// quiescence: every library goroutine left belongs to an idle pooled connection
